@@ -2739,6 +2739,14 @@ int32 parseFinished(ssl_t *ssl, int32 hsLen,
 #endif
     c += hsLen;
     ssl->hsState = SSL_HS_DONE;
+#ifdef USE_SERVER_SIDE_SSL
+    if ((ssl->flags & SSL_FLAGS_SERVER) && !(ssl->flags & SSL_FLAGS_RESUMED))
+    {
+        /* The client's Finished verified: the session now exists and its
+           cache entry becomes resumable */
+        matrixUpdateSession(ssl);
+    }
+#endif
     /*  Now that we've parsed the Finished message, if we're a resumed
         connection, we're done with handshaking, otherwise, we return
         SSL_PROCESS_DATA to get our own cipher spec and finished messages
